@@ -35,8 +35,11 @@ contract(M + "_next_quote",
 
 contract(M + "splitquote",
     types=dict(line="str", stopchar="str?", lower="bool"),
-    returns="tuple[list[tstr],str?]",
+    returns="tuple[list[tstr],str?]", pure=True,
     locals=dict(segments="list[tstr]"), str_axioms=["case_keeps_quotes"],
+    hints={"lossless": ["joined"], "plain_quote_free": ["plain_quote_free"], "nonempty_segments": ["nonempty"],
+           "strings_start_with_quote": ["starts"], "closed_strings_end_with_their_quote": ["ends"],
+           "still_open_literal_is_one_String": ["open_literal_closed_first"], "first_segment_closes_open_literal": ["open_literal_closed_first"]},
     requires={"stop_is_quote": "stopchar is None or stopchar == \"'\" or stopchar == '\"'"},
     ensures={
         "lossless": "implies(not lower, ''.join(result[0]) == line)",
@@ -48,6 +51,10 @@ contract(M + "splitquote",
         "closed_strings_end_with_their_quote": "all(implies(is_String(result[0][k]) and (k < len(result[0]) - 1 or result[1] is None) and not (k == 0 and stopchar is not None), "
                                      "len(result[0][k]) >= 2 and result[0][k][len(result[0][k]) - 1] == result[0][k][0]) for k in range(0, len(result[0])))",
         "open_means_last_is_String": "implies(result[1] is not None, len(result[0]) > 0 and is_String(result[0][len(result[0]) - 1]))",
+        "still_open_literal_is_one_String": "implies(stopchar is not None and nq(line, stopchar, 0) == -1, "
+                                            "len(result[0]) == 1 and is_String(result[0][0]) and result[0][0] == line and result[1] == stopchar)",
+        "first_segment_closes_open_literal": "implies(stopchar is not None and nq(line, stopchar, 0) >= 0, "
+                                             "len(result[0]) >= 1 and is_String(result[0][0]) and result[0][0] == line[:nq(line, stopchar, 0) + 1])",
     },
     raises=[],
     loops={0: dict(invariant={
@@ -57,6 +64,8 @@ contract(M + "splitquote",
         "nonempty": "all(len(segments[k]) > 0 for k in range(0, len(segments)))",
         "starts": "all(implies(is_String(segments[k]) and not (k == 0 and stopchar is not None), segments[k][0] == \"'\" or segments[k][0] == '\"') for k in range(0, len(segments)))",
         "ends": "all(implies(is_String(segments[k]) and not (k == 0 and stopchar is not None), len(segments[k]) >= 2 and segments[k][len(segments[k]) - 1] == segments[k][0]) for k in range(0, len(segments)))",
+        "open_literal_closed_first": "implies(stopchar is not None, nq(line, stopchar, 0) >= 0 and len(segments) >= 1 and is_String(segments[0]) "
+                                     "and segments[0] == line[:nq(line, stopchar, 0) + 1])",
     }, decreases="n - pos")},
     domain=dict(line="strings(\"aB'\\\"\", N)", stopchar="[None, \"'\", '\"']", lower="[False, True]", _size=dict(quick=6, thorough=9)),
     serves=["C02", "C04", "C05", "C11"],
